@@ -312,9 +312,10 @@ func c16BaseScenario(c *Ctx, r *common.Rng, run int, pools [][]*Program) *Scenar
 		argv, files := cutFiles(g, r, nf, []string{"p", "p/sub", "q"}[:r.Range(1, 3)])
 		name := fmt.Sprintf("gen:%d", run)
 		if r.Chance(1, 4) {
-			last := argv[len(argv)-1]
-			s, kind := plantError(r, string(files[last]))
-			files[last] = []byte(s)
+			// the rejected file may be the first, a middle or the last one of the invocation
+			bad := argv[r.Intn(len(argv))]
+			s, kind := plantError(r, string(files[bad]))
+			files[bad] = []byte(s)
 			name += ":reject-" + kind
 		}
 		files["pkg/pkg_all.foi"] = pkgAllFoi
